@@ -23,7 +23,9 @@ NrFalse == {FALSE}
 NsAll == {0, 10, 828}
 BasesOne == {<<"F", "oo">>}
 BasesTwo == {<<"F", "oo">>, <<"f", "oo">>}
-BasesThree == {<<"F", "oo">>, <<"f", "oo">>, <<"F", "oo", "SP", "bar">>}
+\* the third base has a blank (underscore spellings) and a colon inside the page name
+BasesThree == {<<"F", "oo">>, <<"f", "oo">>, <<"F", "oo", "SP", "b", ":", "x">>}
+BasesFour == BasesThree \cup {<<"F", "oo", ":", "x">>}   \* a page name that itself contains a colon
 BodiesOne == {"b1"}
 BodiesTwo == {"b1", "b2"}
 PfxFew == {"none", "canon", "alias"}
